@@ -144,7 +144,7 @@ CHECKS = {
     "C12": dict(
         level="model_checking",
         clauses={"dtype-static", "dtype-export", "dtype-roundtrip", "trace-dtype", "trace-export-dtype"},
-        phases=dict(quick=[dict(profile="ty2", opts=dict(roundtrip=True)), dict(profile="ty2", opts=dict(roundtrip=True, generic=True)), dict(profile="union2", opts=dict(roundtrip=True)),
+        phases=dict(quick=[dict(profile="ty2", opts=dict(roundtrip=True)), dict(profile="ty2", opts=dict(roundtrip=True, generic=True)), dict(profile="union3", opts=dict(roundtrip=True)),
                            dict(kind="tracemeta", profiles=[("ty2", 400), ("agg3", 300), ("union2", 200)])],
                     thorough=[dict(profile="ty2", opts=dict(roundtrip=True)), dict(profile="ty2", opts=dict(roundtrip=True, generic=True)), dict(profile="union2", opts=dict(roundtrip=True)),
                               dict(kind="tracemeta", profiles=[("ty2", 3000), ("agg3", 2000), ("union3", 2000), ("join2", 2000)]),
